@@ -106,3 +106,5 @@ func EvLogon(rel int, abs int, reset string) *Event {
 func EvRestart() *Event { return &Event{K: "restart", Name: "restart"} }
 
 func EvTick() *Event { return &Event{K: "tick", Name: "tick"} }
+
+func EvWindowCloses() *Event { return &Event{K: "window-closes", Name: "session-window-closes"} }
